@@ -207,7 +207,44 @@ func showValue(v Value, model map[string]uint64) string {
 	return fmt.Sprintf("<%T>", v)
 }
 
-func (m *Machine) allVars() []*Term { return m.vars }
+// allVars: the terms whose model values a counterexample needs (nondet variables and
+// the applications of uninterpreted predicates made on this path).
+func (m *Machine) allVars() []*Term {
+	if len(m.ufApps) == 0 {
+		return m.vars
+	}
+	out := append([]*Term{}, m.vars...)
+	for _, u := range m.ufApps {
+		out = append(out, u.t)
+	}
+	return out
+}
+
+// ufTable renders the model's interpretation of the uninterpreted predicates on the
+// arguments they were applied to.
+func (m *Machine) ufTable(model map[string]uint64) []NDValue {
+	var out []NDValue
+	seen := map[string]bool{}
+	for _, u := range m.ufApps {
+		bs := make([]int, len(u.arg.S))
+		key := u.name + ":"
+		for i := range bs {
+			if u.arg.Sym != nil && u.arg.Sym[i] != nil {
+				v, _ := u.arg.Sym[i].eval(model)
+				bs[i] = int(v & 0xff)
+			} else {
+				bs[i] = int(u.arg.S[i])
+			}
+			key += string(rune(bs[i])) + ","
+		}
+		if seen[key] {
+			continue
+		}
+		seen[key] = true
+		out = append(out, NDValue{Kind: "uf", Name: u.name, Bytes: bs, Bool: model[u.t.str] != 0})
+	}
+	return out
+}
 
 // violate asks the solver for pc ∧ extra; sat => a violation with a concrete witness.
 func (m *Machine) violate(label, site string, extra *Term) {
@@ -221,9 +258,9 @@ func (m *Machine) violate(label, site string, extra *Term) {
 	if len(conj) == 0 {
 		r, model = resSat, map[string]uint64{}
 	} else if extra != nil {
-		r, model = m.solver.Sat(m.pc, m.vars, extra)
+		r, model = m.solver.Sat(m.pc, m.allVars(), extra)
 	} else {
-		r, model = m.solver.Sat(m.pc, m.vars)
+		r, model = m.solver.Sat(m.pc, m.allVars())
 	}
 	if extra != nil {
 		ex.mu.Lock()
@@ -248,7 +285,7 @@ func (m *Machine) violate(label, site string, extra *Term) {
 		return
 	}
 	v := &Violation{Label: label, Site: site, Entry: ex.stats.Entry, Arg: ex.stats.Arg,
-		Values: concretise(m.ndlog, model), Trail: append([]int{}, m.trail...), Count: 1, Threads: m.par != nil}
+		Values: append(concretise(m.ndlog, model), m.ufTable(model)...), Trail: append([]int{}, m.trail...), Count: 1, Threads: m.par != nil}
 	ex.vioKeys[key] = v
 	ex.stats.Violations = append(ex.stats.Violations, v)
 }
@@ -391,12 +428,12 @@ func (m *Machine) runPath(harness *ssa.Function, prefix []int, arg int) {
 		var model map[string]uint64
 		r := resSat
 		if len(m.pc) > 0 {
-			r, model = m.solver.Sat(m.pc, m.vars)
+			r, model = m.solver.Sat(m.pc, m.allVars())
 		} else {
 			model = map[string]uint64{}
 		}
 		if r == resSat {
-			leaf = &Leaf{Entry: st.Entry, Arg: arg, Values: concretise(m.ndlog, model), Covers: append([]string{}, m.covers...), PCLen: len(m.pc)}
+			leaf = &Leaf{Entry: st.Entry, Arg: arg, Values: append(concretise(m.ndlog, model), m.ufTable(model)...), Covers: append([]string{}, m.covers...), PCLen: len(m.pc)}
 			for _, o := range m.obs {
 				leaf.Obs = append(leaf.Obs, o.Label+"="+showValue(o.V, model))
 			}
